@@ -31,6 +31,7 @@ def main(tier):
         "transitions": int(st.get("transitions", 0)),
         "traces_validated_against_impl": int(st.get("replays", 0)),
         "observations": int(st.get("observations", 0)),
+        "big_vector_operations": int(st.get("big_vector_operations", 0)),
         "per_class": per_class,
         "samples": samples[:8] or ["(none)"],
         "rule": "BFS over histories of {construct(variants), default-construct, set entries, solve/read, copy-construct, "
